@@ -30,5 +30,10 @@ theorem verdict : (classify Generated.factsC07).Sound (Holds (cfgOf Generated.fa
 #print axioms witness_value_update_stale
 #print axioms witness_value_insert_wrong_comparator
 #print axioms witness_value_mixed_types
+#print axioms shift_correct
+#print axioms shift_partial
+#print axioms witness_expire_cleared_refiled
+#print axioms witness_patch_expired_partial_reindex
+#print axioms Hv.Beacon.slotInv_stepPatchExpired
 
 end Hv.C07
